@@ -839,7 +839,11 @@ impl Check for C13 {
                 }
             })
             .collect();
-        json!({"src": format!("{src}{comment}"), "cfg": cfg.json, "file": file, "files": served, "parentNone": parent_none, "kind": kind})
+        let mut case = json!({"src": format!("{src}{comment}"), "cfg": cfg.json, "file": file, "files": served, "parentNone": parent_none, "kind": kind});
+        if tape.len() > 2 && tape[1] % 40 == 0 {
+            case["burst"] = json!(20 + (tape[2] % 30) as u64);
+        }
+        case
     }
     fn rule(&self) -> String {
         "inputs: generated programs, token-level mutations of them (delete / duplicate / swap / bracket flips / injected tokens such as ?. += ` and \
@@ -929,6 +933,21 @@ pub fn eval_totality(case: &Value) -> Outcome {
     let spawned = std::thread::Builder::new().stack_size(256 << 20).spawn(move || {
         let reader = reader_from_case(&case2);
         let config = rw::make_config(&cfg_json);
+        // `burst: n`: the call comes after n other calls on the same thread, each for a file with an external map of
+        // its own (a long-running worker): whatever the rewriter keeps per thread has seen n distinct maps by then
+        if let Some(n) = case2["burst"].as_u64() {
+            let burst_cfg = rw::make_config(&json!({"localVarPrefix": "test", "chainSourceMap": true, "csiMethods": [{"src": "plusOperator", "operator": true}, {"src": "trim"}]}));
+            for i in 0..n {
+                let mut r = MemReader::default();
+                let map = format!(r#"{{"version":3,"sources":["orig{i}.ts"],"names":["n{i}"],"mappings":"AAAAA,CAACA;AACA"}}"#);
+                r.files.insert(format!("/app/burst/chunk-{i}.js.map"), ReadOutcome::Bytes(map.into_bytes()));
+                let code = format!("function f{i}(a, b) {{ return a + b.trim(); }}\n//# sourceMappingURL=chunk-{i}.js.map\n");
+                if let rw::Outcome::Panic(p) = rw::rewrite(&burst_cfg, &code, &format!("/app/burst/chunk-{i}.js"), &r) {
+                    let _ = tx.send(rw::Outcome::Panic(format!("call {} of a sequence of calls on one thread (files with distinct external maps): {p}", i + 1)));
+                    return;
+                }
+            }
+        }
         let out = rw::rewrite(&config, &src2, &file2, &reader);
         let _ = tx.send(out);
     });
@@ -1168,6 +1187,8 @@ impl Check for C07Static {
         let mut o = opts_for(&cfg, false);
         o.allow_module = true;
         o.focus_strictness = true;
+        // (layout noise: CR LF files among others - a line continuation inside a directive then holds a CR)
+        o.layout_noise = t.flag();
         let p = gen_program_t(&mut t, &o);
         let tags: Vec<&str> = p.tags.iter().copied().collect();
         json!({"src": p.src, "cfg": cfg.json, "file": "/app/src/gen.js", "tags": tags})
@@ -1261,7 +1282,12 @@ fn collect_prologues(v: &Value, prefix: &str, out: &mut Vec<Vec<String>>) {
                 let mut dirs = vec![];
                 for s in stmts {
                     if Eraser::is_directive(s) {
-                        dirs.push(s["expression"]["value"].as_str().unwrap_or("").to_string());
+                        // `'use strict'` spelled with an escape or a line continuation is a directive, but not a Use Strict
+                        // Directive: the two must not be turned into each other
+                        let value = s["expression"]["value"].as_str().unwrap_or("").to_string();
+                        let raw = s["expression"]["$raw"].as_str().unwrap_or("");
+                        let plain = raw.len() >= 2 && raw[1..raw.len() - 1] == value;
+                        dirs.push(if value == "use strict" && !plain { format!("{value} (spelled with escapes: no Use Strict Directive)") } else { value });
                     } else {
                         break;
                     }
